@@ -232,7 +232,59 @@ def wrap_global(value):
         if issubclass(value, (BaseException, enum.Enum)):
             return value
         return RepoClass(value)
+    if isinstance(value, pytypes.ModuleType) and value.__name__ in _MODULE_PROXIES:
+        return _MODULE_PROXIES[value.__name__](value)
     return value
+
+
+class _StatModule:
+    """The `stat` module on symbolic modes: the S_IS* tests and S_IMODE / S_IFMT are functions of the mode (not
+    interpreted: which bits they read is not modelled); everything else is the real module."""
+
+    def __init__(self, real):
+        self._real = real
+
+    def __getattr__(self, name):
+        real = getattr(self._real, name)
+        if not callable(real) or not (name.startswith("S_IS") or name in ("S_IMODE", "S_IFMT")):
+            return real
+
+        def f(mode):
+            if not isinstance(mode, sym.SymInt):
+                return real(mode)
+            c = sym.cur()
+            if name.startswith("S_IS"):
+                return sym.SymBool(c.decls.fun("stat." + name, [tm.INT], tm.BOOL)(sym.I(mode)))
+            return sym.SymInt(c.decls.fun("stat." + name, [tm.INT], tm.INT)(sym.I(mode)))
+
+        return f
+
+
+class _AttrsModule:
+    """The `attrs` module: evolve() of an object built by construct() is a new object of the same class with the
+    given fields replaced (through construct, so that validators / post-init run as for any construction)."""
+
+    def __init__(self, real):
+        self._real = real
+
+    def __getattr__(self, name):
+        return getattr(self._real, name)
+
+    def evolve(self, inst, **changes):
+        if not isinstance(inst, SymObj):
+            return self._real.evolve(inst, **changes)
+        fields = attrs_fields(inst._cls)
+        if fields is None:
+            raise Unsupported("attrs.evolve of an object whose class is not an attrs class")
+        kw = {f.alias: inst._fields[f.name] for f in fields if f.init}
+        unknown = set(changes) - set(kw)
+        if unknown:
+            raise TypeError(f"evolve() got unexpected field(s) {sorted(unknown)}")
+        kw.update(changes)
+        return construct(inst._cls, (), kw)
+
+
+_MODULE_PROXIES = {"stat": _StatModule, "attrs": _AttrsModule, "attr": _AttrsModule}
 
 
 def attrs_fields(cls):
